@@ -196,10 +196,13 @@ def search(ctx, broken, disagreements):
                 seen.add((v[0], g))
                 found.append({'law': v[0], 'input': {'d': d, 'attrs': jsonable(attrs), 'op': 'remove_empty_subpaths'}, 'expected_by_spec': jsonable(v[1]), 'observed': jsonable(v[2])})
     # history: the verdict on a visible shape does not depend on a hidden shape with the same outline having been processed before
-    for g, d in GEOMS.items():
+    k = F(0)
+    for g in ('square', 'two_sq', 'open_tri'):
         for hid in ({'opacity': 0.0}, {'display': 'none'}, {'fill_opacity': 0.0}, {'style': [('display', 'none')]}):
             for vis in ({}, {'fill_rule': 'evenodd'}):
-                n += 1
+                n += 1; k += F(1, 16)
+                # an outline no earlier case has used (shifted by k <= 1.5), so the hidden shape really is the first one seen with it
+                d = pathsem.fmt([(c, [x + (k if i % 2 == 0 else 0) for i, x in enumerate(a)]) for c, a in pathsem.parse_simple(GEOMS[g], num=lambda x: F(float(x)))])
                 try: impl_shape(hid, d).remove_empty_subpaths(); impl_shape(hid, d).might_paint()
                 except ValueError: continue
                 v = judge_subpaths(d, vis) or judge(vis, d)
